@@ -245,12 +245,21 @@ type invRes struct {
 }
 
 func runPlz(repo *e2e.Repo, threads int, keepGoing bool, labels []string, timeout time.Duration) invRes {
+	return runPlzNice(repo, 0, threads, keepGoing, labels, timeout)
+}
+
+// runPlzNice: niceness > 0 runs the invocation at a lower scheduling priority (on a busy machine it then takes
+// longer over its work than the invocations that arrive later take to start up: a wider race window).
+func runPlzNice(repo *e2e.Repo, niceness, threads int, keepGoing bool, labels []string, timeout time.Duration) invRes {
 	args := []string{"--plain_output", "-v", "1", "-n", fmt.Sprint(threads), "build"}
 	if keepGoing {
 		args = append(args, "--keep_going")
 	}
 	args = append(args, labels...)
 	cmd := exec.Command(repo.Plz, args...)
+	if niceness > 0 {
+		cmd = exec.Command("/usr/bin/nice", append([]string{"-n", fmt.Sprint(niceness), repo.Plz}, args...)...)
+	}
 	cmd.Dir = repo.Dir
 	cmd.Env = env
 	cmd.SysProcAttr = &syscall.SysProcAttr{Setpgid: true}
@@ -799,6 +808,11 @@ func main() {
 		base := e2e.Scratch("c31")
 		defer os.RemoveAll(base)
 
+		var creplay critRace
+		if c.ReadReplay(&creplay) && creplay.Stream != "" {
+			replayCrit(c, base, &creplay)
+			return
+		}
 		var replay scenario
 		if c.ReadReplay(&replay) && replay.Spec != nil {
 			for k := 0; k < 5; k++ {
@@ -809,6 +823,11 @@ func main() {
 		}
 
 		n := c.Scale(10, 400)
+		// VERIF_C31_STREAMS=crit: only the critical-section streams (for working on them; bin/check never sets it)
+		critOnly := os.Getenv("VERIF_C31_STREAMS") == "crit"
+		if critOnly {
+			n = 0
+		}
 		workers := 8
 		scs := make([]scenario, n)
 		for i := range scs {
@@ -816,6 +835,12 @@ func main() {
 		}
 		ocs := make([]outcome, n)
 		var wg sync.WaitGroup
+		// the slow-collect stream runs beside the scenarios (its waiters block on a lock for about a second)
+		var slow []*critRace
+		wg.Add(1)
+		tStart := time.Now()
+		var slowWall time.Duration
+		go func() { defer wg.Done(); slow = runSlowStreams(base+"/crit", c.Thor); slowWall = time.Since(tStart) }()
 		sem := make(chan struct{}, workers)
 		for i := 0; i < n; i++ {
 			wg.Add(1)
@@ -830,7 +855,20 @@ func main() {
 		for i := range ocs {
 			judge(c, &ocs[i])
 		}
+		for _, cr := range slow {
+			cr.report(c)
+		}
 		// after the scenarios, alone on the machine as far as this check is concerned
-		runDirRaces(c, base+"/dirrace", c.Scale(4, 30), c.Scale(400, 1500))
+		tScen := time.Since(tStart)
+		fgs := runFilegroupStreams(c, base+"/crit")
+		for _, cr := range fgs {
+			cr.report(c)
+		}
+		tFg := time.Since(tStart) - tScen
+		c.Note("critical-section streams: slow-collect %d trials (beside the scenarios, %d ms), copied-filegroup %d trials (%d ms); scenarios %d ms",
+			len(slow), slowWall.Milliseconds(), len(fgs), tFg.Milliseconds(), tScen.Milliseconds())
+		if !critOnly {
+			runDirRaces(c, base+"/dirrace", c.Scale(4, 30), c.Scale(400, 1500))
+		}
 	})
 }
